@@ -6,3 +6,10 @@ claim(
     "Trusted: python ast, the abstract interpreter (bfsa.symexec), the GF(2) domain, the 12-line reference step written from the definition. Assumes byte inputs 0..255 and a 16-bit start value.",
     "DESIGN.md section 4, C15",
 )
+claim(
+    "C05", "other",
+    "reader consumption grammar extracted by structural abstract interpretation and matched against the documented layout table; acceptance guards identified by data provenance and relational normal form; structural dominance over acceptance",
+    "Decides the structural content of the statement: the reads of read_file/from_binary/dir_from_binary form exactly the documented grammar (widths, big-endian, nesting, sentinel loop, region ends); each acceptance condition (signature, stored>=declared, unique tags, every region fully consumed, entry MAC over the entry prefix with 1-based index IV, address == position before each payload read, payload MAC over the stored bytes, nothing after the last payload, exact-length reads) exists as a raising guard in the right normal form that dominates acceptance and is skipped only for check_cmac=False; the returned object's fields flow from the slots read. It does not enumerate binaries or run the parser.",
+    "Trusted: python ast, bfsa abstract interpreter and guard normal forms, spec/layout.json (transcribed from the property text). cmac is taken as the documented MAC (C03/C16 clauses). Dominance is structural (if/loop/try nesting), sound for this goto-free code.",
+    "DESIGN.md section 4, C05",
+)
